@@ -84,8 +84,15 @@ fn gen_max(rng: &mut Rng) -> u32 {
         9 => 131_072,
         10 => MAXIMUM,
         11 => u32::MAX, // documented: silently truncated to the maximum
-        12 | 13 => 0,
-        14 => *rng.pick(&[1u32, 512, 1017]), // below the library minimum: locally invalid
+        12 => 0,
+        13 => {
+            if rng.bool() {
+                *rng.pick(&[1u32, 512, 1017]) // below the library minimum: locally invalid
+            } else {
+                2048
+            }
+        }
+        14 => 8192,
         _ => rng.range(MIN as i64, 70_000) as u32,
     }
 }
@@ -1200,7 +1207,7 @@ fn scenario(l: &mut Local, rng: &mut Rng, cfg: &Cfg, idx: u64) {
 }
 
 pub fn run(cfg: &Cfg) -> Outcome {
-    let n = cfg.n(3_000, 40_000);
+    let n = cfg.n(5_000, 60_000);
     let local = run_parallel(
         cfg,
         1,
